@@ -38,6 +38,8 @@ func (in *Interp) materializeBlob(s *SliceVal) {
 
 func (in *Interp) blobLen(s SliceVal) int {
 	switch x := s.Ext.(type) {
+	case *wsVariant:
+		return in.blobLen(x.of) + 1
 	case *jsonDoc:
 		return in.jsonDocLen(x)
 	case *rawJSON:
@@ -274,6 +276,9 @@ func registerBlobs(ex *Explorer) {
 		dst := a[1].(IfaceVal)
 		if data.Ext == nil && data.Len == 0 {
 			return in.newError("unexpected end of JSON input")
+		}
+		if w, ok := data.Ext.(*wsVariant); ok {
+			data = w.of
 		}
 		if d, isDoc := data.Ext.(*jsonDoc); isDoc {
 			dc, ok := dst.V.(*Cell)
